@@ -68,6 +68,19 @@ prop('C05',
   "Not decided: whether a handler removed by an earlier handler still runs in the same delivery (snapshot semantics), GC timing of weak handlers.",
   "custom AST/CFG checker: iteration-vs-mutation, constant propagation over enumerated paths (finite protocol table), definite assignment with path feasibility, guard reachability, exception containment", "DESIGN.md 5/C05")
 
+prop('C08',
+  "Static analysis of /repo's current source: decides structural necessary conditions of the rendezvous - in _try_waiter the still-waiting "
+  "guard dominates removal and callback, a missing component returns before either, removal dominates the callback (exactly-once under "
+  "re-entrant registration) and the callback sits in a catch-all try; register stores, announces with error suppression, then tries the "
+  "waiters on every path; call_when_ready appends then tries the same entry; the sweep iterates a copy and repeats to a fixpoint; "
+  "listen_to_dependencies declares exactly one rendezvous and its handler-name parsing is decided by constant evaluation of the parse "
+  "expressions on sample names (components containing underscores); each lifecycle event has a single raise site raised at most once per "
+  "call, stage 2 is reachable only from a deferral release guarded by an empty set and not-starting-up, deferral tokens are fresh objects, "
+  "goUp holds its own deferral across GoingUpEvent, _quit is a test-and-set with GoingDown before Down. Decides these conditions, not all "
+  "registration/declaration permutations as executed histories.",
+  "Not decided: permutations as executed histories; behaviour of user callbacks.",
+  "custom AST/CFG checker: dominance/must-precede, exception containment, iteration-vs-mutation, constant evaluation of string-parsing expressions, once-only call-chain analysis", "DESIGN.md 5/C08")
+
 NOT_APPLICABLE = {
   'C16': "Address types: the statement is about numeric/textual agreement over the whole address domain (byte order, mask arithmetic, CIDR parsing, zero-run compression, round trips, rejection of malformed text) - results of computations on runtime values; no shape-level rule is a necessary and telling condition for it (DESIGN.md section 7).",
 }
